@@ -7,6 +7,11 @@ that rules are invariant under the commonest behaviour-preserving rewrites:
   N3  `if c: ...; return/raise/continue/break  else: B`  ->  `if c: ...` followed by B
   N4  `pass` statements are dropped from blocks that have other statements
   N5  f"{a}.{b}" (plain fields, no format spec, conversion only !r/!s)  ->  "%s.%s" % (a, b)
+  N7  `for x in (p, q): BODY` over a literal tuple/list of at most 4 plain paths, BODY without break/continue/else,
+      is unrolled (BODY[x:=p]; BODY[x:=q]);  max/min/sum/any/all over a generator ranging over such a literal are
+      expanded the same way (max(f(m) for m in (a, b)) -> max(f(a), f(b)); sum -> f(a) + f(b); any/all -> or/and)
+  N8  `x = 0; for m in C: [if c:] x += f(m)`  ->  `x = sum(f(m) for m in C [if c])`   (adjacent statements only)
+  N9  `for m in C: if [not] p(m): return False|True` followed by `return True|False`  ->  `return all(...)` / `return any(...)`
   N6  `except T as e:` binding is kept, but the py2 idiom `e = sys.exc_info()[1]` as the first statement of a handler
       is rewritten to the binding form (`except T as e:`)
 
@@ -16,6 +21,7 @@ what every rule wants (they read `+=` as "the new value is old + e").
 """
 
 import ast
+import copy
 
 
 def _same_path(a, b):
@@ -24,6 +30,23 @@ def _same_path(a, b):
     if isinstance(a, ast.Attribute) and isinstance(b, ast.Attribute):
         return a.attr == b.attr and _same_path(a.value, b.value)
     return False
+
+
+def _is_path(e):
+    while isinstance(e, ast.Attribute):
+        e = e.value
+    return isinstance(e, ast.Name)
+
+
+class _SubstName(ast.NodeTransformer):
+    def __init__(self, name, expr):
+        self.name = name
+        self.expr = expr
+
+    def visit_Name(self, n):
+        if n.id == self.name and isinstance(n.ctx, ast.Load):
+            return copy.deepcopy(self.expr)
+        return n
 
 
 def _is_num(e):
@@ -44,6 +67,39 @@ class Desugar(ast.NodeTransformer):
                 return ast.copy_location(ast.AugAssign(target=t, op=v.op, value=v.right), n)
             if isinstance(v.op, (ast.Add, ast.Mult)) and _same_path(t, v.right) and _is_num(v.left):
                 return ast.copy_location(ast.AugAssign(target=t, op=v.op, value=v.left), n)
+        return n
+
+    def visit_For(self, n):
+        self.generic_visit(n)
+        if isinstance(n.iter, (ast.Tuple, ast.List)) and 1 <= len(n.iter.elts) <= 4 and all(_is_path(e) for e in n.iter.elts) \
+                and isinstance(n.target, ast.Name) and not n.orelse \
+                and not any(isinstance(x, (ast.Break, ast.Continue)) for s_ in n.body for x in ast.walk(s_)) \
+                and not any(isinstance(x, ast.Name) and x.id == n.target.id and isinstance(x.ctx, ast.Store) for s_ in n.body for x in ast.walk(s_)):
+            out = []
+            for e in n.iter.elts:
+                for s_ in n.body:
+                    out.append(_SubstName(n.target.id, e).visit(copy.deepcopy(s_)))
+            return out
+        return n
+
+    def visit_Call(self, n):
+        self.generic_visit(n)
+        if isinstance(n.func, ast.Name) and n.func.id in ("max", "min", "sum", "any", "all") and len(n.args) == 1 and not n.keywords \
+                and isinstance(n.args[0], (ast.GeneratorExp, ast.ListComp)):
+            g = n.args[0]
+            if len(g.generators) == 1 and not g.generators[0].ifs and isinstance(g.generators[0].iter, (ast.Tuple, ast.List)) \
+                    and 2 <= len(g.generators[0].iter.elts) <= 4 and all(_is_path(e) for e in g.generators[0].iter.elts) \
+                    and isinstance(g.generators[0].target, ast.Name):
+                v = g.generators[0].target.id
+                items = [_SubstName(v, e).visit(copy.deepcopy(g.elt)) for e in g.generators[0].iter.elts]
+                if n.func.id in ("max", "min"):
+                    return ast.copy_location(ast.Call(func=n.func, args=items, keywords=[]), n)
+                if n.func.id == "sum":
+                    acc = items[0]
+                    for it in items[1:]:
+                        acc = ast.BinOp(left=acc, op=ast.Add(), right=it)
+                    return ast.copy_location(acc, n)
+                return ast.copy_location(ast.BoolOp(op=ast.Or() if n.func.id == "any" else ast.And(), values=items), n)
         return n
 
     def visit_JoinedStr(self, n):
@@ -77,13 +133,67 @@ class Desugar(ast.NodeTransformer):
                     n.body = n.body[1:] or [ast.copy_location(ast.Pass(), st)]
         return n
 
+    def _loops_to_builtins(self, stmts):
+        out = []
+        i = 0
+        while i < len(stmts):
+            st = stmts[i]
+            nxt = stmts[i + 1] if i + 1 < len(stmts) else None
+            # N8
+            if isinstance(st, ast.Assign) and len(st.targets) == 1 and isinstance(st.targets[0], ast.Name) and _is_num(st.value) \
+                    and st.value.value == 0 and isinstance(nxt, ast.For) and not nxt.orelse and len(nxt.body) == 1:
+                x = st.targets[0].id
+                b = nxt.body[0]
+                cond = None
+                if isinstance(b, ast.If) and not b.orelse and len(b.body) == 1:
+                    cond, b = b.test, b.body[0]
+                if isinstance(b, ast.AugAssign) and isinstance(b.op, ast.Add) and isinstance(b.target, ast.Name) and b.target.id == x \
+                        and not any(isinstance(n_, ast.Name) and n_.id == x for n_ in ast.walk(b.value)) \
+                        and not (cond is not None and any(isinstance(n_, ast.Name) and n_.id == x for n_ in ast.walk(cond))):
+                    gen = ast.GeneratorExp(elt=b.value, generators=[ast.comprehension(target=nxt.target, iter=nxt.iter,
+                                                                                     ifs=[cond] if cond is not None else [], is_async=0)])
+                    call = ast.Call(func=ast.Name(id="sum", ctx=ast.Load()), args=[gen], keywords=[])
+                    new = ast.copy_location(ast.Assign(targets=st.targets, value=call), nxt)
+                    ast.fix_missing_locations(new)
+                    out.append(new)
+                    i += 2
+                    continue
+            # N9
+            if isinstance(st, ast.For) and not st.orelse and len(st.body) == 1 and isinstance(st.body[0], ast.If) and not st.body[0].orelse \
+                    and len(st.body[0].body) == 1 and isinstance(st.body[0].body[0], ast.Return) and isinstance(nxt, ast.Return) \
+                    and isinstance(st.body[0].body[0].value, ast.Constant) and isinstance(nxt.value, ast.Constant) \
+                    and isinstance(st.body[0].body[0].value.value, bool) and isinstance(nxt.value.value, bool) \
+                    and st.body[0].body[0].value.value != nxt.value.value:
+                inner = st.body[0].body[0].value.value
+                test = st.body[0].test
+                if inner is False:
+                    # all(not test)
+                    elt = test.operand if isinstance(test, ast.UnaryOp) and isinstance(test.op, ast.Not) else ast.UnaryOp(op=ast.Not(), operand=test)
+                    fn = "all"
+                else:
+                    elt = test
+                    fn = "any"
+                gen = ast.GeneratorExp(elt=elt, generators=[ast.comprehension(target=st.target, iter=st.iter, ifs=[], is_async=0)])
+                new = ast.copy_location(ast.Return(value=ast.Call(func=ast.Name(id=fn, ctx=ast.Load()), args=[gen], keywords=[])), st)
+                ast.fix_missing_locations(new)
+                out.append(new)
+                i += 2
+                continue
+            out.append(st)
+            i += 1
+        return out
+
     def _block(self, stmts):
         out = []
         if len(stmts) > 1 and any(isinstance(s, ast.Pass) for s in stmts):
             kept = [s for s in stmts if not isinstance(s, ast.Pass)]
             stmts = kept or stmts[:1]
+        visited = []
         for s in stmts:
-            s = self.visit(s)
+            r = self.visit(s)
+            visited.extend(r if isinstance(r, list) else [r])
+        visited = self._loops_to_builtins(visited)
+        for s in visited:
             if isinstance(s, ast.If):
                 # N2
                 if s.orelse and isinstance(s.test, ast.UnaryOp) and isinstance(s.test.op, ast.Not) \
